@@ -2,7 +2,7 @@
 import parso
 from harness import gens, impl, preds, streams
 
-N = {'quick': 1, 'thorough': 20}
+N = {'quick': 3, 'thorough': 30}
 
 
 def scale(ctx, n):
